@@ -155,104 +155,104 @@ Section OneCpu.
           else []
       end) (c_caches c).
 
+  (* core: requests, new threadwithcoreid, "not first of its core" *)
+  Definition core_part (c : cpu_files) (twc : Z) : list lreq * Z * bool :=
+    let i := c_n c in
+    if keep HWLOC_OBJ_CORE then
+      match inter_opt (read_mask (c_core c)) cpuset with
+      | Some cs =>
+          let '(twc, got) :=
+            if weight_gt_1 cs && (twc =? -1)%Z then
+              let myid := id_or_unknown (c_core_id c) in
+              let sib := match bs_first cs with Some f => if f =? i then next_after cs i else Some f | None => None end in
+              let sibid := match sib with
+                           | Some sn => match find_cpu v sn with Some sc => id_or_unknown (c_core_id sc) | None => UINTMAX end
+                           | None => UINTMAX     (* cannot happen: weight > 1 *)
+                           end in
+              ((if N.eqb sibid myid then 0%Z else 1%Z), Some myid)
+            else (twc, None) in
+          let nf := negb (first_is cs i) in
+          if negb nf || negb (twc =? 0)%Z then
+            let myid := match got with Some x => x | None => id_or_unknown (c_core_id c) end in
+            ([simple_req HWLOC_OBJ_CORE myid (if negb (twc =? 0)%Z then bs_single i else cs)], twc, nf)
+          else ([], twc, nf)
+      | None => ([], twc, false)
+      end
+    else ([], twc, false).
+
+  Definition cluster_part (c : cpu_files) (nfcore : bool) : option bset * bool :=
+    let i := c_n c in
+    if negb nfcore && keep HWLOC_OBJ_GROUP then
+      match inter_opt (read_mask (c_cluster c)) cpuset with
+      | Some cs => if weight_is_1 cs then (None, nfcore)
+                   else if negb (first_is cs i) then (None, true)
+                   else (Some cs, nfcore)
+      | None => (None, nfcore)
+      end
+    else (None, nfcore).
+
+  Definition die_part (c : cpu_files) (clusterset : option bset) (nfcluster : bool) : option bset * option bset * bool :=
+    let i := c_n c in
+    if negb nfcluster && keep HWLOC_OBJ_DIE then
+      match inter_opt (read_mask (c_die c)) cpuset with
+      | Some ds =>
+          let '(dieset, nfdie) :=
+            if weight_is_1 ds then (None, nfcluster)
+            else if negb (first_is ds i) then (None, true)
+            else (Some ds, nfcluster) in
+          let clusterset := match clusterset, dieset with
+                            | Some cl, Some d => if bs_eqb d cl then None else clusterset
+                            | _, _ => clusterset
+                            end in
+          (dieset, clusterset, nfdie)
+      | None => (None, clusterset, nfcluster)
+      end
+    else (None, clusterset, nfcluster).
+
+  Definition pkg_part (c : cpu_files) (clusterset : option bset) (nfdie : bool) : list lreq * option bset :=
+    let i := c_n c in
+    if negb nfdie && keep HWLOC_OBJ_PACKAGE then
+      match inter_opt (read_mask (c_pkg c)) cpuset with
+      | Some ps =>
+          let clusterset := match clusterset with Some cl => if bs_eqb ps cl then None else clusterset | None => None end in
+          if first_is ps i then ([simple_req HWLOC_OBJ_PACKAGE (id_or_unknown (c_pkg_id c)) ps], clusterset)
+          else ([], clusterset)
+      | None => ([], clusterset)
+      end
+    else ([], clusterset).
+
+  Definition s390_one (c : cpu_files) (m idf : file) (sub : N) : list lreq :=
+    match inter_opt (read_mask m) cpuset with
+    | Some bs => if first_is bs (c_n c) then
+                   match read_id idf with
+                   | Some id => [mkLReq HWLOC_OBJ_GROUP id bs LCPU_GROUP_KIND_S390_BOOK sub false 0 0]
+                   | None => []
+                   end
+                 else []
+    | None => []
+    end.
+  Definition s390_part (c : cpu_files) : list lreq :=
+    if v_s390 v && keep HWLOC_OBJ_GROUP then
+      s390_one c (c_book c) (c_book_id c) 0 ++
+      (* the drawer is only looked at when the book file could be read *)
+      match read_mask (c_book c) with Some _ => s390_one c (c_drawer c) (c_drawer_id c) 1 | None => [] end
+    else [].
+
   (* the requests of one iteration of the main loop; [twc] = threadwithcoreid (-1 unknown, 0, 1) *)
   Definition one_cpu (c : cpu_files) (twc : Z) : list lreq * Z :=
     let i := c_n c in
-    (* core *)
-    let '(core_rq, twc, nfcore) :=
-      if keep HWLOC_OBJ_CORE then
-        match inter_opt (read_mask (c_core c)) cpuset with
-        | Some cs =>
-            let '(twc, got) :=
-              if weight_gt_1 cs && (twc =? -1)%Z then
-                let myid := id_or_unknown (c_core_id c) in
-                let sib := match bs_first cs with Some f => if f =? i then next_after cs i else Some f | None => None end in
-                let sibid := match sib with
-                             | Some sn => match find_cpu v sn with Some sc => id_or_unknown (c_core_id sc) | None => UINTMAX end
-                             | None => UINTMAX     (* cannot happen: weight > 1 *)
-                             end in
-                ((if N.eqb sibid myid then 0%Z else 1%Z), Some myid)
-              else (twc, None) in
-            let nf := negb (first_is cs i) in
-            if negb nf || negb (twc =? 0)%Z then
-              let myid := match got with Some x => x | None => id_or_unknown (c_core_id c) end in
-              ([simple_req HWLOC_OBJ_CORE myid (if negb (twc =? 0)%Z then bs_single i else cs)], twc, nf)
-            else ([], twc, nf)
-        | None => ([], twc, false)
-        end
-      else ([], twc, false) in
-    (* cluster *)
-    let '(clusterset, nfcluster) :=
-      if negb nfcore && keep HWLOC_OBJ_GROUP then
-        match inter_opt (read_mask (c_cluster c)) cpuset with
-        | Some cs => if weight_is_1 cs then (None, nfcore)
-                     else if negb (first_is cs i) then (None, true)
-                     else (Some cs, nfcore)
-        | None => (None, nfcore)
-        end
-      else (None, nfcore) in
-    (* die *)
-    let '(dieset, clusterset, nfdie) :=
-      if negb nfcluster && keep HWLOC_OBJ_DIE then
-        match inter_opt (read_mask (c_die c)) cpuset with
-        | Some ds =>
-            let '(dieset, nfdie) :=
-              if weight_is_1 ds then (None, nfcluster)
-              else if negb (first_is ds i) then (None, true)
-              else (Some ds, nfcluster) in
-            let clusterset := match clusterset, dieset with
-                              | Some cl, Some d => if bs_eqb d cl then None else clusterset
-                              | _, _ => clusterset
-                              end in
-            (dieset, clusterset, nfdie)
-        | None => (None, clusterset, nfcluster)
-        end
-      else (None, clusterset, nfcluster) in
-    (* package *)
-    let '(pkg_rq, clusterset) :=
-      if negb nfdie && keep HWLOC_OBJ_PACKAGE then
-        match inter_opt (read_mask (c_pkg c)) cpuset with
-        | Some ps =>
-            let clusterset := match clusterset with Some cl => if bs_eqb ps cl then None else clusterset | None => None end in
-            if first_is ps i then ([simple_req HWLOC_OBJ_PACKAGE (id_or_unknown (c_pkg_id c)) ps], clusterset)
-            else ([], clusterset)
-        | None => ([], clusterset)
-        end
-      else ([], clusterset) in
+    let '(core_rq, twc, nfcore) := core_part c twc in
+    let '(clusterset, nfcluster) := cluster_part c nfcore in
+    let '(dieset, clusterset, nfdie) := die_part c clusterset nfcluster in
+    let '(pkg_rq, clusterset) := pkg_part c clusterset nfdie in
     let cluster_rq := match clusterset with
                       | Some cl => [mkLReq HWLOC_OBJ_GROUP (id_or_unknown (c_cluster_id c)) cl LCPU_GROUP_KIND_LINUX_CLUSTER 0 (v_dmcg v) 0 0]
                       | None => []
                       end in
     let die_rq := match dieset with Some d => [simple_req HWLOC_OBJ_DIE (id_or_unknown (c_die_id c)) d] | None => [] end in
-    (* s390 books and drawers *)
-    let s390_rq :=
-      if v_s390 v && keep HWLOC_OBJ_GROUP then
-        (match inter_opt (read_mask (c_book c)) cpuset with
-         | Some bs => if first_is bs i then
-                        match read_id (c_book_id c) with
-                        | Some id => [mkLReq HWLOC_OBJ_GROUP id bs LCPU_GROUP_KIND_S390_BOOK 0 false 0 0]
-                        | None => []
-                        end
-                      else []
-         | None => []
-         end) ++
-        (match inter_opt (read_mask (c_book c)) cpuset with
-         | Some _ =>      (* the drawer is only looked at when the book file could be read *)
-             match inter_opt (read_mask (c_drawer c)) cpuset with
-             | Some ds => if first_is ds i then
-                            match read_id (c_drawer_id c) with
-                            | Some id => [mkLReq HWLOC_OBJ_GROUP id ds LCPU_GROUP_KIND_S390_BOOK 1 false 0 0]
-                            | None => []
-                            end
-                          else []
-             | None => []
-             end
-         | None => []
-         end)
-      else [] in
     let pu_rq := [simple_req HWLOC_OBJ_PU i (bs_single i)] in
     let cache_rq := if v_caches v then cache_reqs c else [] in
-    (core_rq ++ pkg_rq ++ cluster_rq ++ die_rq ++ s390_rq ++ pu_rq ++ cache_rq, twc).
+    (core_rq ++ pkg_rq ++ cluster_rq ++ die_rq ++ s390_part c ++ pu_rq ++ cache_rq, twc).
 End OneCpu.
 
 (* ---------- look_sysfscpu ---------- *)
